@@ -306,6 +306,22 @@ def udp_big_cases(rng, idx0, n):
 def follow_case(rng, idx, variant):
     """a response is already in the slot (hosts answer / hit of an outer cache) when redirect renames the query in front of
     a cache; afterwards a second client asks for the redirect TARGET itself. Each client is owed its own question."""
+    if variant == "case":
+        # the second client asks the SAME name in another letter case (0x20-style) behind the same cache: whether the cache
+        # shares the entry or not, each client is owed its own spelling of the question
+        name = mk_name(rng, idx, "lower")
+        other = "".join(ch.upper() if i % 2 == 0 else ch for i, ch in enumerate(name))
+        if rng.random() < 0.5:
+            name, other = other, name
+        nodes = [{"kind": "cache", "impl": "cache", "hit": False, "key": "own"}]
+        if rng.random() < 0.5:
+            nodes.append({"kind": "ttl", "impl": "ttl", "arg": "5"})
+        nodes.append({"kind": "up", "impl": "terminal", "script": {"c": "ans", "rcode": 0, "tc": False, "size": 200, "fill": "a", "noopt": True,
+                                                                  "pre": 0, "post": 0}})
+        return {"idx": idx, "mode": "direct", "tr": rng.choice(["udp", "tcp"]), "mal": "ok", "opt": None, "nodes": nodes,
+                "chunk": "whole", "reps": 1, "follow": True,
+                "id": rng.randint(0, 0xFFFF), "name": name, "target": other,
+                "qtype": rng.choice([1, 28, 16]), "qclass": 1, "flags": 0x0100, "settle": 0, "expected": None, "beh": None}
     first = {"kind": "local", "impl": "hosts", "ans": True} if variant == "local" else \
             {"kind": "cache", "impl": "cache", "hit": True, "key": "own"}
     nodes = [first, {"kind": "redirect", "impl": "redirect", "match": True},
